@@ -27,14 +27,14 @@ static const char *call_names[K_NCALLS] = {
     "become", "unbecome", "unstash", "set_batch_size", "set_batch_timeout", "set_tokenbucket", "log", "dump", "stats", "src_len", "lookup", "bind",
     "tell(foreign module -> this module)", "poisonpill(foreign module -> this module)"};
 
-struct Case { int state = 0; /* 0 idle 1 running 2 paused 3 stopped */ int bkind = 0; /* 0: B has no context, 1: B has its own context and module */ std::vector<int> calls; };
+struct Case { int state = 0; /* 0 idle 1 running 2 paused 3 stopped */ int bkind = 0; /* 0: B has no context, 1: B has its own context and module */ int park = 0; /* 1: the owner thread waits INSIDE the module's own event handler while B calls (state 1 only) */ std::vector<int> calls; };
 
 static std::string to_text(const Case &c) {
-    std::ostringstream o; o << "foreign1\nstate " << c.state << "\nbkind " << c.bkind << "\nop calls"; for (int x : c.calls) o << " " << x; o << "\n"; return o.str();
+    std::ostringstream o; o << "foreign1\nstate " << c.state << "\nbkind " << c.bkind << "\npark " << c.park << "\nop calls"; for (int x : c.calls) o << " " << x; o << "\n"; return o.str();
 }
 static bool from_text(const std::string &s, Case &c) {
     cio::Text t; if (!cio::parse(s, t) || t.magic != "foreign1") return false;
-    c = Case(); c.state = cio::hdr_long(t, "state", 0); c.bkind = cio::hdr_long(t, "bkind", 0);
+    c = Case(); c.state = cio::hdr_long(t, "state", 0); c.bkind = cio::hdr_long(t, "bkind", 0); c.park = cio::hdr_long(t, "park", 0);
     for (auto &o : t.ops) if (o.first == "calls") c.calls.assign(o.second.begin(), o.second.end());
     return true;
 }
@@ -58,7 +58,8 @@ static int a_evt_one(void *up, void *data) {
     if (e->type == M_SRC_TYPE_FD) { char c; if (read(e->fd_evt->fd, &c, 1) != 1) {} }
     return 0;
 }
-static void a_evt(m_mod_t *self, const m_queue_t *const evts) { (void)self; m_queue_iterate(evts, a_evt_one, nullptr); }
+static bool park_pending; static void park_in_callback();
+static void a_evt(m_mod_t *self, const m_queue_t *const evts) { (void)self; m_queue_iterate(evts, a_evt_one, nullptr); if (park_pending && self == am) { park_pending = false; park_in_callback(); } }
 static void b_evt(m_mod_t *self, const m_queue_t *const evts) { (void)self; (void)evts; }
 static void other_evt(m_mod_t *self, const m_queue_t *const evts) { (void)self; (void)evts; }
 static int task_fn(void *p) { (void)p; task_ran++; return 7; }
@@ -139,6 +140,20 @@ static void *thread_b(void *) {
     return nullptr;
 }
 
+static ssize_t len_before[M_SRC_TYPE_END + 1]; static m_mod_stats_t st0; static int want_state;
+static void snapshot() { for (int k = 0; k <= M_SRC_TYPE_END; k++) len_before[k] = m_mod_src_len(am, (m_src_types)k); m_mod_stats(am, &st0); }
+static void compare_with_snapshot(const char *where) {
+    if (!v.ok) return;
+    if ((int)m_mod_state(am) != want_state) v.fail("C14.2", std::string(where) + ": module state changed to " + std::to_string(m_mod_state(am)) + " by a foreign call");
+    for (int k = 0; k <= M_SRC_TYPE_END && v.ok; k++) { ssize_t n = m_mod_src_len(am, (m_src_types)k); if (n != len_before[k]) v.fail("C14.2", std::string(where) + ": source count of kind " + std::to_string(k) + " changed from " + std::to_string(len_before[k]) + " to " + std::to_string(n) + " by a foreign call"); }
+    m_mod_stats_t st1; m_mod_stats(am, &st1);
+    if (st1.sent_msgs != st0.sent_msgs || st1.recv_msgs != st0.recv_msgs) v.fail("C14.2", std::string(where) + ": message counters changed by a foreign call");
+    if (m_ctx_len() != 2) v.fail("C14.2", std::string(where) + ": context lost or gained modules through a foreign call");
+    if (task_ran) v.fail("C14.2", std::string(where) + ": a task registered from a foreign thread ran");
+}
+// the owner thread is inside the module's own callback while the foreign thread performs its calls (still strictly sequential)
+static void park_in_callback() { snapshot(); sem_post(&to_b); sem_wait(&to_a); compare_with_snapshot("inside the module's handler"); }
+
 static rt::Verdict run_case(const Case &c, const rt::Args &) {
     v = rt::Verdict(); g_case = &c; a_events = a_foreign_events = 0; task_ran = 0;
     sem_init(&to_b, 0, 0); sem_init(&to_a, 0, 0);
@@ -159,30 +174,30 @@ static rt::Verdict run_case(const Case &c, const rt::Args &) {
         q |= m_mod_src_register_thresh(am, &thr_old, (m_src_flags)0, nullptr);
         return q;
     };
-    int want_state = M_MOD_IDLE;
+    want_state = M_MOD_IDLE;
     if (c.state == 0) { r = setup_sources(); }
     else if (c.state == 1) { r = m_mod_start(am) | setup_sources(); want_state = M_MOD_RUNNING; }
     else if (c.state == 2) { r = m_mod_start(am) | setup_sources() | m_mod_pause(am); want_state = M_MOD_PAUSED; }
     else { r = m_mod_start(am) | m_mod_stop(am) | setup_sources(); want_state = M_MOD_STOPPED; }
     if (r != 0) { v.fail("C14.H", "setting up module A failed (" + std::to_string(r) + ")"); return v; }
-    ssize_t len_before[M_SRC_TYPE_END + 1];
-    for (int k = 0; k <= M_SRC_TYPE_END; k++) len_before[k] = m_mod_src_len(am, (m_src_types)k);
-    m_mod_stats_t st0; m_mod_stats(am, &st0);
-
+    const bool park = c.park && c.state == 1;
     pthread_t tb; pthread_create(&tb, nullptr, thread_b, nullptr);
-    sem_post(&to_b);  // A parks while B performs its calls: strictly sequential
-    sem_wait(&to_a);
-    pthread_join(tb, nullptr);
-
-    // A probes: nothing changed
-    if (v.ok) {
-        if ((int)m_mod_state(am) != want_state) v.fail("C14.2", "module state changed to " + std::to_string(m_mod_state(am)) + " by a foreign call");
-        for (int k = 0; k <= M_SRC_TYPE_END && v.ok; k++) { ssize_t n = m_mod_src_len(am, (m_src_types)k); if (n != len_before[k]) v.fail("C14.2", "source count of kind " + std::to_string(k) + " changed from " + std::to_string(len_before[k]) + " to " + std::to_string(n) + " by a foreign call"); }
-        m_mod_stats_t st1; m_mod_stats(am, &st1);
-        if (st1.sent_msgs != st0.sent_msgs || st1.recv_msgs != st0.recv_msgs) v.fail("C14.2", "message counters changed by a foreign call");
-        if (m_ctx_len() != 2) v.fail("C14.2", "context lost or gained modules through a foreign call");
-        if (task_ran) v.fail("C14.2", "a task registered from a foreign thread ran");
+    if (!park) {
+        snapshot();
+        sem_post(&to_b);  // A parks while B performs its calls: strictly sequential
+        sem_wait(&to_a);
+        compare_with_snapshot("after the foreign calls");
+    } else {
+        // A sends itself a message and runs the loop: B performs its calls while A sits in the handler of that very module
+        park_pending = true;
+        m_mod_ps_tell(am, am, &payload_own, (m_ps_flags)0);
+        m_ctx_dispatch();
+        for (int i = 0; i < 4 && park_pending; i++) m_ctx_dispatch();
+        if (park_pending) { park_pending = false; v.fail("C14.H", "the module's handler never ran"); sem_post(&to_b); sem_wait(&to_a); }
+        m_ctx_quit(0); m_ctx_dispatch();
+        if (v.ok && (int)m_mod_state(am) != want_state) v.fail("C14.2", "module state changed to " + std::to_string(m_mod_state(am)) + " by a foreign call");
     }
+    pthread_join(tb, nullptr);
     // behaviour check: bring A to RUNNING, publish once, run the loop: exactly the own message arrives, with the original handler
     if (v.ok) {
         if (want_state == M_MOD_PAUSED) m_mod_resume(am);
@@ -198,30 +213,30 @@ static rt::Verdict run_case(const Case &c, const rt::Args &) {
     m_mod_deregister(&am); m_mod_deregister(&am2); m_ctx_deregister();
     close(a_pipe[0]); close(a_pipe[1]);
     v.nontrivial = true;
-    v.classes.push_back("state=" + std::to_string(c.state)); v.classes.push_back(c.bkind == 2 ? "B-own-ctx-same-module-name" : c.bkind ? "B-own-ctx" : "B-no-ctx");
+    v.classes.push_back("state=" + std::to_string(c.state)); if (c.park && c.state == 1) v.classes.push_back("owner-inside-own-callback"); v.classes.push_back(c.bkind == 2 ? "B-own-ctx-same-module-name" : c.bkind ? "B-own-ctx" : "B-no-ctx");
     for (int call : c.calls) v.classes.push_back(std::string("call:") + call_names[call]);
     return v;
 }
 
 static bool exhaustive(const rt::Args &args, rt::Stats &stats, rt::Failure &failure) {
     uint64_t idx = 0, total = 0;
-    for (int state = 0; state < 4; state++) for (int bkind = 0; bkind < 3; bkind++) for (int call = 0; call < K_NCALLS; call++) {
+    for (int state = 0; state < 5; state++) for (int bkind = 0; bkind < 3; bkind++) for (int call = 0; call < K_NCALLS; call++) {
         if ((idx++ % args.nshards) != (uint64_t)args.shard) continue;
-        Case c; c.state = state; c.bkind = bkind; c.calls = {call};
+        Case c; c.state = state == 4 ? 1 : state; c.park = state == 4; c.bkind = bkind; c.calls = {call};
         rt::Verdict vv = rt::run_forked(args.prop, [&] { return run_case(c, args); });
         total++; stats.record(to_text(c), vv);
         if (!vv.ok) { failure.present = true; failure.rule = vv.rule; failure.message = vv.message; failure.text = to_text(c); return false; }
     }
     stats.exhaustive = true;
-    stats.exhaustive_note = "every (module state x foreign thread kind x public module call) combination: 4 x 3 x " + std::to_string((int)K_NCALLS);
+    stats.exhaustive_note = "every (module state [idle, running, paused, stopped, running with the owner thread inside the module's own handler] x foreign thread kind x public module call) combination: 5 x 3 x " + std::to_string((int)K_NCALLS);
     stats.counters["matrix_cells"] = total;
     return true;
 }
 
 static rc::Gen<Case> gen_case(const rt::Args &) {
     using namespace rc;
-    return gen::map(gen::tuple(gens::range(0, 4), gens::range(0, 3), gens::vec<int>(1, 8, gens::range<int>(0, (int)K_NCALLS))), [](std::tuple<int, int, std::vector<int>> t) {
-        Case c; c.state = std::get<0>(t); c.bkind = std::get<1>(t); c.calls = std::get<2>(t); return c; });
+    return gen::map(gen::tuple(gens::range(0, 5), gens::range(0, 3), gens::vec<int>(1, 8, gens::range<int>(0, (int)K_NCALLS))), [](std::tuple<int, int, std::vector<int>> t) {
+        Case c; c.state = std::get<0>(t) == 4 ? 1 : std::get<0>(t); c.park = std::get<0>(t) == 4; c.bkind = std::get<1>(t); c.calls = std::get<2>(t); return c; });
 }
 
 int main(int argc, char **argv) {
